@@ -89,38 +89,44 @@ structure Inv (cfg : Cfg α) (s : St α) : Prop where
   next_le  : s.next ≤ cfg.reqs.length
   acc_eq   : (s.closed = false ∨ cfg.sync = true) → s.fin + s.queue.length = s.next
   cur_some : ∀ rem, s.cur = some rem → s.queue ≠ [] ∧ ∃ r pre, cfg.reqs[s.fin]? = some r ∧
-               r.pieces = pre ++ rem ∧ (s.closed = false → s.wire = W cfg.reqs s.fin ++ pre.flatten)
-  cur_none : s.cur = none → s.closed = false → s.wire = W cfg.reqs s.fin
+               r.pieces = pre ++ rem ∧
+               (s.closed = false → s.wire ++ s.pending = W cfg.reqs s.fin ++ pre.flatten)
+  cur_none : s.cur = none → s.closed = false → s.wire ++ s.pending = W cfg.reqs s.fin
   no_close : s.closed = false → noCloseBefore cfg.reqs s.fin
+  pend     : s.closed = true → s.pending = []
   pre      : s.closed = true → s.wire <+: ideal cfg
-  by_srv   : s.byServer = true → s.closed = true ∧ willClose cfg = true ∧ s.wire = ideal cfg ∧
-               answered cfg.reqs ≤ s.fin
+  by_srv   : s.byServer = true → s.closed = true ∧ willClose cfg = true ∧
+               answered cfg.reqs ≤ s.fin ∧ (s.dropped = false → s.wire = ideal cfg)
   why      : s.closed = true → s.byServer = true ∨ s.ext = true
   handled  : s.handled = List.range (s.fin + (if s.cur.isSome then 1 else 0))
 
 theorem inv_init (cfg : Cfg α) : Inv cfg (init : St α) := by
   constructor <;> simp [init, W_zero, noCloseBefore]
 
+/-- taken ++ queued is a prefix of the ideal stream while the connection is open -/
+theorem total_prefix_of_inv {cfg : Cfg α} {s : St α} (h : Inv cfg s) (hc : s.closed = false) :
+    s.wire ++ s.pending <+: ideal cfg := by
+  have hn := h.no_close hc
+  cases hcur : s.cur with
+  | none =>
+    rw [h.cur_none hcur hc]
+    apply W_prefix
+    apply answered_ge _ _ hn
+    have := h.acc_le; have := h.next_le; omega
+  | some rem =>
+    obtain ⟨_, r, pre, hr, hp, hw⟩ := h.cur_some rem hcur
+    rw [hw hc]
+    have h1 : W cfg.reqs s.fin ++ pre.flatten <+: W cfg.reqs (s.fin + 1) := by
+      rw [W_succ _ _ r hr]
+      refine ⟨rem.flatten, ?_⟩
+      simp [Req.resp, hp]
+    exact h1.trans (W_prefix _ (answered_gt _ _ r hn hr))
+
 /-- the wire is a prefix of the ideal stream in every state satisfying the invariant -/
 theorem wire_prefix_of_inv {cfg : Cfg α} {s : St α} (h : Inv cfg s) : s.wire <+: ideal cfg := by
   cases hc : s.closed with
   | true => exact h.pre hc
-  | false =>
-    have hn := h.no_close hc
-    cases hcur : s.cur with
-    | none =>
-      rw [h.cur_none hcur hc]
-      apply W_prefix
-      apply answered_ge _ _ hn
-      have := h.acc_le; have := h.next_le; omega
-    | some rem =>
-      obtain ⟨_, r, pre, hr, hp, hw⟩ := h.cur_some rem hcur
-      rw [hw hc]
-      have h1 : W cfg.reqs s.fin ++ pre.flatten <+: W cfg.reqs (s.fin + 1) := by
-        rw [W_succ _ _ r hr]
-        refine ⟨rem.flatten, ?_⟩
-        simp [Req.resp, hp]
-      exact h1.trans (W_prefix _ (answered_gt _ _ r hn hr))
+  | false => exact (List.prefix_append _ _).trans (total_prefix_of_inv h hc)
 
 theorem head_of_range' {q : List Nat} {k f : Nat} {t : List Nat} (hq : q = List.range' f q.length)
     (hk : q = k :: t) : k = f ∧ t = List.range' (f + 1) t.length := by
@@ -186,31 +192,86 @@ theorem inv_step {cfg : Cfg α} {s s' : St α} (a : Act) (h : Inv cfg s) (hs : s
             rw [List.range_succ, this]; simp }
       · cases hs
     · cases hs
-  | write =>
+  | write k =>
     simp only [step] at hs
     split at hs
     · rename_i p ps hcur
-      cases hs
       obtain ⟨hq, r, pre, hr, hp, hw⟩ := h.cur_some _ hcur
+      have hhandled : s.handled = List.range (s.fin + 1) := by
+        have := h.handled; simp only [hcur] at this; simpa using this
+      split at hs
+      · -- closed: the write fails
+        rename_i hc
+        cases hs
+        exact { h with
+          cur_some := by
+            intro rem hrem
+            simp only [Option.some.injEq] at hrem
+            subst hrem
+            exact ⟨hq, r, pre ++ [p], hr, by simp [hp], by intro hh; rw [hc] at hh; cases hh⟩
+          cur_none := by intro hh; simp at hh
+          handled := by simpa using hhandled }
+      · rename_i hc
+        have hc' : s.closed = false := by simpa using hc
+        split at hs
+        · -- empty write list: the kernel takes a part, the rest is queued
+          rename_i hpe
+          have hpe' : s.pending = [] := by simpa using hpe
+          cases hs
+          exact { h with
+            cur_some := by
+              intro rem hrem
+              simp only [Option.some.injEq] at hrem
+              subst hrem
+              refine ⟨hq, r, pre ++ [p], hr, by simp [hp], ?_⟩
+              intro _
+              have := hw hc'
+              rw [hpe', List.append_nil] at this
+              simp only [List.append_assoc, List.take_append_drop, this]
+              simp
+            cur_none := by intro hh; simp at hh
+            pend := by intro hh; have : s.closed = true := hh; rw [hc'] at this; cases this
+            pre := by intro hh; have : s.closed = true := hh; rw [hc'] at this; cases this
+            by_srv := by
+              intro hb
+              have := (h.by_srv hb).1; rw [hc'] at this; cases this
+            handled := by simpa using hhandled }
+        · -- behind a backlog: queued whole
+          cases hs
+          exact { h with
+            cur_some := by
+              intro rem hrem
+              simp only [Option.some.injEq] at hrem
+              subst hrem
+              refine ⟨hq, r, pre ++ [p], hr, by simp [hp], ?_⟩
+              intro _
+              have := hw hc'
+              simp only [← List.append_assoc, this]
+              simp
+            cur_none := by intro hh; simp at hh
+            pend := by intro hh; have : s.closed = true := hh; rw [hc'] at this; cases this
+            handled := by simpa using hhandled }
+    · cases hs
+  | flush k =>
+    simp only [step] at hs
+    split at hs
+    · rename_i hg
+      simp only [Bool.and_eq_true, Bool.not_eq_true', decide_eq_true_eq] at hg
+      obtain ⟨⟨hc, _⟩, _⟩ := hg
+      cases hs
+      have hkeep : s.wire ++ List.take k s.pending ++ List.drop k s.pending = s.wire ++ s.pending := by
+        rw [List.append_assoc, List.take_append_drop]
       exact { h with
         cur_some := by
           intro rem hrem
-          simp only [Option.some.injEq] at hrem
-          subst hrem
-          refine ⟨hq, r, pre ++ [p], hr, by simp [hp], ?_⟩
-          intro hc
-          have hc' : s.closed = false := hc
-          simp [hc', hw hc']
-        cur_none := by intro hh; simp at hh
-        pre := by
-          intro hc
-          have hc' : s.closed = true := hc
-          simp only [hc', if_true]; exact h.pre hc'
+          obtain ⟨h1, r, pre, h2, h3, h4⟩ := h.cur_some rem hrem
+          exact ⟨h1, r, pre, h2, h3, by intro hh; simp only; rw [hkeep]; exact h4 hh⟩
+        cur_none := by intro h1 h2; simp only; rw [hkeep]; exact h.cur_none h1 h2
+        pend := by intro hh; have : s.closed = true := hh; rw [hc] at this; cases this
+        pre := by intro hh; have : s.closed = true := hh; rw [hc] at this; cases this
         by_srv := by
           intro hb
-          obtain ⟨h1, h2, h3, h4⟩ := h.by_srv hb
-          exact ⟨h1, h2, by simp only [h1, if_true]; exact h3, h4⟩
-        handled := by have := h.handled; simp only [hcur] at this; simpa using this }
+          have := (h.by_srv hb).1; rw [hc] at this; cases this }
     · cases hs
   | finish =>
     simp only [step] at hs
@@ -222,7 +283,7 @@ theorem inv_step {cfg : Cfg α} {s s' : St α} (a : Act) (h : Inv cfg s) (hs : s
       obtain ⟨_, r, pre, hr, hp, hw⟩ := h.cur_some _ hcur
       simp only [List.append_nil] at hp
       have hlen : s.queue.length = q.length + 1 := by rw [hq]; simp
-      have hwire : s.closed = false → s.wire = W cfg.reqs (s.fin + 1) := by
+      have htot : s.closed = false → s.wire ++ s.pending = W cfg.reqs (s.fin + 1) := by
         intro hc; rw [hw hc, W_succ _ _ r hr, Req.resp, hp]
       simp only [hr]
       refine
@@ -230,7 +291,7 @@ theorem inv_step {cfg : Cfg α} {s s' : St α} (a : Act) (h : Inv cfg s) (hs : s
           acc_le := by have := h.acc_le; simp only; omega
           next_le := h.next_le
           acc_eq := ?_, cur_some := by intro rem hh; simp at hh
-          cur_none := ?_, no_close := ?_, pre := ?_, by_srv := ?_, why := ?_
+          cur_none := ?_, no_close := ?_, pend := ?_, pre := ?_, by_srv := ?_, why := ?_
           handled := by have := h.handled; simp only [hcur] at this; simpa using this }
       · intro hh
         have : s.closed = false ∨ cfg.sync = true := by
@@ -240,7 +301,8 @@ theorem inv_step {cfg : Cfg α} {s s' : St α} (a : Act) (h : Inv cfg s) (hs : s
         have := h.acc_eq this; simp only; omega
       · intro _ hc
         simp only [Bool.or_eq_false_iff] at hc
-        exact hwire hc.1
+        simp only [hc.1, hc.2]
+        simpa using htot hc.1
       · intro hc
         simp only [Bool.or_eq_false_iff] at hc
         intro k r' hk hr'
@@ -250,20 +312,37 @@ theorem inv_step {cfg : Cfg α} {s s' : St α} (a : Act) (h : Inv cfg s) (hs : s
         · exact h.no_close hc.1 k r' (by omega) hr'
       · intro hc
         cases hcl : s.closed with
+        | true => simp [h.pend hcl]
+        | false =>
+          simp only [hcl, Bool.false_or] at hc
+          simp [hc]
+      · intro hc
+        cases hcl : s.closed with
         | true => exact h.pre hcl
         | false =>
           simp only [hcl, Bool.false_or] at hc
           simp only [ideal]
-          rw [hwire hcl, answered_eq _ _ r (h.no_close hcl) hr hc]
-          exact List.prefix_refl _
+          rw [answered_eq _ _ r (h.no_close hcl) hr hc, ← htot hcl]
+          exact List.prefix_append _ _
       · intro hb
         simp only [Bool.or_eq_true, Bool.and_eq_true, Bool.not_eq_true'] at hb
         rcases hb with hb | ⟨hc, hcl⟩
         · obtain ⟨h1, h2, h3, h4⟩ := h.by_srv hb
-          exact ⟨by simp [h1], h2, h3, by simp only; omega⟩
+          refine ⟨by simp [h1], h2, by simp only; omega, ?_⟩
+          intro hd
+          have hd' : s.dropped = false := by
+            cases hdd : s.dropped with
+            | false => rfl
+            | true => simp [hdd] at hd
+          exact h4 hd'
         · refine ⟨by simp [hc], any_close_of_get _ _ r hr hc, ?_, ?_⟩
-          · simp only [ideal]; rw [hwire hcl, answered_eq _ _ r (h.no_close hcl) hr hc]
           · simp only; rw [answered_eq _ _ r (h.no_close hcl) hr hc]; exact Nat.le_refl _
+          · intro hd
+            simp only [hc, hcl, Bool.not_false, Bool.and_self, Bool.true_and, Bool.or_eq_false_iff,
+              Bool.not_eq_false'] at hd
+            have hpe : s.pending = [] := by simpa using hd.2
+            simp only [ideal]
+            rw [answered_eq _ _ r (h.no_close hcl) hr hc, ← htot hcl, hpe, List.append_nil]
       · intro hc
         cases hcl : s.closed with
         | true =>
@@ -290,11 +369,15 @@ theorem inv_step {cfg : Cfg α} {s s' : St α} (a : Act) (h : Inv cfg s) (hs : s
         exact ⟨h1, r, pre, h2, h3, by intro hh; cases hh⟩
       cur_none := by intro _ hh; cases hh
       no_close := by intro hh; cases hh
+      pend := fun _ => rfl
       pre := fun _ => hpre
       by_srv := by
         intro hb
-        obtain ⟨_, h2, h3, h4⟩ := h.by_srv hb
-        exact ⟨rfl, h2, h3, h4⟩
+        obtain ⟨h1, h2, h3, h4⟩ := h.by_srv hb
+        refine ⟨rfl, h2, h3, ?_⟩
+        intro hd
+        simp only [h.pend h1, List.isEmpty_nil, Bool.not_true, Bool.or_false] at hd
+        exact h4 hd
       why := fun _ => Or.inr rfl }
 
 theorem inv_run {cfg : Cfg α} (acts : List Act) : ∀ {s : St α}, Inv cfg s → Inv cfg (run cfg s acts) := by
@@ -321,8 +404,9 @@ theorem step_closed {cfg : Cfg α} {s s' : St α} (a : Act) (hs : step cfg s a =
       · cases hs
     · cases hs
   · split at hs
-    · cases hs; simp [hc]
+    · simp only [hc, if_true] at hs; cases hs; exact ⟨rfl, rfl⟩
     · cases hs
+  · simp [hc] at hs
   · split at hs
     · cases hs; simp [hc]
     · cases hs
@@ -340,11 +424,56 @@ theorem step_ext {cfg : Cfg α} {s s' : St α} (a : Act) (hs : step cfg s a = so
       · cases hs
     · cases hs
   · split at hs
+    · split at hs
+      · cases hs; rfl
+      · split at hs <;> cases hs <;> rfl
+    · cases hs
+  · split at hs
     · cases hs; rfl
     · cases hs
   · split at hs
     · cases hs; rfl
     · cases hs
   · exact absurd rfl ha
+
+/-- the kernel takes every write in full: no backlog ever forms, so no close can drop anything -/
+theorem step_full {cfg : Cfg α} {s s' : St α} (a : Act) (hs : step cfg s a = some s')
+    (ha : ∀ k, a ≠ .write (some k)) (hp : s.pending = []) (hd : s.dropped = false) :
+    s'.pending = [] ∧ s'.dropped = false := by
+  cases a with
+  | parse =>
+    simp only [step] at hs
+    split at hs
+    · split at hs <;> cases hs <;> exact ⟨hp, hd⟩
+    · cases hs
+  | start =>
+    simp only [step] at hs
+    split at hs
+    · split at hs
+      · cases hs; exact ⟨hp, hd⟩
+      · cases hs
+    · cases hs
+  | write k =>
+    cases k with
+    | some k => exact absurd rfl (ha k)
+    | none =>
+      simp only [step] at hs
+      split at hs
+      · split at hs
+        · cases hs; exact ⟨hp, hd⟩
+        · split at hs
+          · cases hs; simp [hd]
+          · rename_i hne; simp [hp] at hne
+      · cases hs
+  | flush k =>
+    simp [step, hp] at hs
+  | finish =>
+    simp only [step] at hs
+    split at hs
+    · cases hs; simp [hp, hd]
+    · cases hs
+  | extClose =>
+    simp only [step] at hs
+    cases hs; simp [hp, hd]
 
 end Pipeline
